@@ -202,6 +202,7 @@ macro_rules! median_fk {
 }
 median_fk!(Q);
 median_fk!(f64);
+median_fk!(Fz);
 
 macro_rules! mean_fk {
     ($t:ty) => {
@@ -445,6 +446,16 @@ fk!([] Peaks<Slope, Q>, Slope => Q {
 
 // ---- wrappers ---------------------------------------------------------------------------
 
+/// what the cache wrapper may be built around: any output with the feature `cache_any`, outputs with `PartialEq` without
+#[cfg(feature = "cache_any")]
+pub trait CacheOut {}
+#[cfg(feature = "cache_any")]
+impl<T> CacheOut for T {}
+#[cfg(not(feature = "cache_any"))]
+pub trait CacheOut: PartialEq {}
+#[cfg(not(feature = "cache_any"))]
+impl<T: PartialEq> CacheOut for T {}
+
 impl<K> IO for Cache<K, <K as IO>::Out>
 where
     K: IO,
@@ -455,6 +466,7 @@ where
 impl<K> FK for Cache<K, <K as IO>::Out>
 where
     K: FK + IO + Filter<<K as IO>::In, Output = <K as IO>::Out> + Reset,
+    <K as IO>::Out: CacheOut,
 {
     fn filt(&mut self, a: &[Val]) -> String {
         let x: K::In = FromArgs::from_args(a);
@@ -639,11 +651,32 @@ mod units {
 fn finish<K>(k: K, wrap: Option<&str>) -> Box<dyn Inst>
 where
     K: FK + IO + Filter<<K as IO>::In, Output = <K as IO>::Out> + Reset,
+    <K as IO>::Out: CacheOut,
 {
     match wrap {
         None => Box::new(k),
         Some("cache") => Box::new(Cache::<K, <K as IO>::Out>::from(k)),
         Some(w) => panic!("harness: unknown wrapper {}", w),
+    }
+}
+
+/// `finish` for the kinds whose output type has no `PartialEq`
+#[cfg(feature = "cache_any")]
+fn finish_ne<K>(k: K, wrap: Option<&str>) -> Box<dyn Inst>
+where
+    K: FK + IO + Filter<<K as IO>::In, Output = <K as IO>::Out> + Reset,
+{
+    finish(k, wrap)
+}
+#[cfg(not(feature = "cache_any"))]
+fn finish_ne<K>(k: K, wrap: Option<&str>) -> Box<dyn Inst>
+where
+    K: FK + IO + Filter<<K as IO>::In, Output = <K as IO>::Out> + Reset,
+{
+    match wrap {
+        None => Box::new(k),
+        // (the case is discarded, like one whose exact arithmetic overflowed)
+        Some(_) => panic!("harness-unsupported: built without the cache wrapper around outputs that have no PartialEq"),
     }
 }
 
@@ -688,6 +721,7 @@ fn build_inner(kind: &str, kv: &KV, wrap: Option<&str>) -> Box<dyn Inst> {
     match (kind, t) {
         ("median", "q") => with_n!(kv_n(kv, "N"), N => finish_q(Median::<Q, N>::default(), wrap)),
         ("median", "f64") => with_n!(kv_n(kv, "N"), N => finish(Median::<f64, N>::default(), wrap)),
+        ("median", "fz") => with_n!(kv_n(kv, "N"), N => finish(Median::<Fz, N>::default(), wrap)),
         ("mean", "q") => with_n!(kv_n(kv, "N"), N => finish_q(Mean::<Q, N>::default(), wrap)),
         ("mean", "i64") => with_n!(kv_n(kv, "N"), N => finish(Mean::<i64, N>::default(), wrap)),
         ("convolve", "i64") | ("convolve_norm", "i64") => {
@@ -720,7 +754,7 @@ fn build_inner(kind: &str, kv: &KV, wrap: Option<&str>) -> Box<dyn Inst> {
             with_n!(c.len(), N => finish_q(Convolve::<Q, N>::normalized(ConvolveConfig { coefficients: arr(c) }), wrap))
         }
         ("delay", _) => with_n!(kv_n(kv, "N"), N => finish_q(Delay::<Q, N>::default(), wrap)),
-        ("meanvar", _) => with_n!(kv_n(kv, "N"), N => finish(MeanVariance::<Q, N>::default(), wrap)),
+        ("meanvar", _) => with_n!(kv_n(kv, "N"), N => finish_ne(MeanVariance::<Q, N>::default(), wrap)),
         ("differentiate", "f64") => finish(Differentiate::<f64>::default(), wrap),
         ("integrate", "f64") => finish(Integrate::<f64>::default(), wrap),
         ("differentiate", _) => finish_q(Differentiate::<Q>::default(), wrap),
@@ -748,7 +782,7 @@ fn build_inner(kind: &str, kv: &KV, wrap: Option<&str>) -> Box<dyn Inst> {
             }),
             wrap,
         ),
-        ("emeanvar", _) => finish(Emv::<Q>::with_config(EmvConfig { inverse_width: kv_q(kv, "w") }), wrap),
+        ("emeanvar", _) => finish_ne(Emv::<Q>::with_config(EmvConfig { inverse_width: kv_q(kv, "w") }), wrap),
         ("threshold", "q") => finish_q(
             Threshold::<Q, Q>::with_config(ThresholdConfig { threshold: kv_q(kv, "thr"), outputs: out2(kv) }),
             wrap,
@@ -888,18 +922,35 @@ pub fn inject(kind: &str, kv: &KV) -> Box<dyn Inst> {
                 mid: kv_q(kv, "mid"),
                 post: EmaConfig { inverse_width: kv_q(kv, "post") },
             };
+            // `ipre` / `ipost`: the inner averages may carry a width of their own (the state is public; `from_guts` accepts it)
+            let inner = |k: &str, dflt: &str| if kv.contains_key(k) { kv_q(kv, k) } else { kv_q(kv, dflt) };
             let st = signalo_filters::median::exp::State {
                 mean_pre: Ema::<Q>::from_guts((
-                    EmaConfig { inverse_width: kv_q(kv, "pre") },
+                    EmaConfig { inverse_width: inner("ipre", "pre") },
                     signalo_filters::mean::exp::mean::State { mean: kv_oq(kv, "spre") },
                 )),
                 mean_post: Ema::<Q>::from_guts((
-                    EmaConfig { inverse_width: kv_q(kv, "post") },
+                    EmaConfig { inverse_width: inner("ipost", "post") },
                     signalo_filters::mean::exp::mean::State { mean: kv_oq(kv, "spost") },
                 )),
                 median: kv_oq(kv, "median"),
             };
             Box::new(Emed::<Q>::from_guts((cfg, st)))
+        }
+        "emeanvar" => {
+            // the two inner averages carry their own copy of the width (`mw`, `vw`; default: the filter's)
+            let inner = |k: &str| if kv.contains_key(k) { kv_q(kv, k) } else { kv_q(kv, "w") };
+            let st = signalo_filters::mean::exp::mean_variance::State {
+                mean: Ema::<Q>::from_guts((
+                    EmaConfig { inverse_width: inner("mw") },
+                    signalo_filters::mean::exp::mean::State { mean: kv_oq(kv, "mean") },
+                )),
+                variance: Ema::<Q>::from_guts((
+                    EmaConfig { inverse_width: inner("vw") },
+                    signalo_filters::mean::exp::mean::State { mean: kv_oq(kv, "var") },
+                )),
+            };
+            Box::new(Emv::<Q>::from_guts((EmvConfig { inverse_width: kv_q(kv, "w") }, st)))
         }
         // a tap ring filled by hand to any level (reachable only through the public state + `from_guts`): the filter
         // tops it up with the current sample before it convolves / delays
